@@ -1,5 +1,6 @@
 import GotranxProofs.Validate
 import GotranxProofs.Pins
+import GotranxProofs.Analysis
 /-!
 # C06 — generalized Rush–Larsen follows the guarded exponential-integrator formula
 (the real-analysis part — `diff` is the derivative, exactness for affine rates, convergence to
@@ -58,6 +59,29 @@ theorem grl_aliases_and_delta :
       ["forward_generalized_rush_larsen", "generalized_rush_larsen"] ∧
     Generated.defaultDelta = [("generalized_rush_larsen", "1e-08"), ("hybrid_rush_larsen", "1e-08")] := by
   decide +kernel
+
+/-! ### Real-analysis consequences (proved in `GotranxProofs/Analysis.lean`, restated) -/
+
+/-- `g` is the derivative of the rate with respect to the own state, everything else held fixed -/
+theorem linearisation_is_derivative (ρ : Name → ℝ) (s : Name) (e : Expr) (h : Smooth ρ s e) :
+    HasDerivAt (fun v => evalR (upd ρ s v) e) (evalR ρ (diff s e)) (ρ s) := diff_correct ρ s e h
+
+/-- a rate that does not mention its own state has a syntactically zero linearisation → Euler -/
+theorem zero_linearisation_gives_euler (stiff : Name → Bool) (δ : Expr) (s d : Name) (e : Expr)
+    (h : mentions s e = false) : rlStore stiff δ s d e = ([], eulerStore s d) :=
+  rlStore_zero stiff δ s d e (diff_zero_of_not_mentions s e h)
+
+/-- exact for rates affine in their own state -/
+theorem exact_for_affine (δ a b x0 dt : ℝ) (hδ : 0 ≤ δ) (ha : |a| > δ) :
+    rlStep δ x0 (a * x0 + b) a dt = (x0 + b / a) * Real.exp (a * dt) - b / a := rl_exact_affine δ a b x0 dt hδ ha
+
+/-- converges to the Euler step as dt → 0: same value and same slope at dt = 0 -/
+theorem converges_to_euler (δ x f g : ℝ) (hδ : 0 ≤ δ) :
+    rlStep δ x f g 0 = x ∧ HasDerivAt (fun dt => rlStep δ x f g dt - (x + dt * f)) 0 0 :=
+  ⟨rl_dt_zero δ x f g, rl_minus_euler_little_o δ x f g hδ⟩
+
+/-- finite (no division by zero) under the guard with δ ≥ 0 -/
+theorem no_division_by_zero (δ g : ℝ) (hδ : 0 ≤ δ) (h : |g| > δ) : g ≠ 0 := rl_guard_nonzero δ g hδ h
 
 /-! non-vacuity: float64, |g| = 2 > 1e-8 takes the exponential branch; g = 0 the Euler branch -/
 example : NumFloat.truthy (NumFloat.ofBool (NumFloat.rel .gt (NumFloat.fn .abs 2.0) 1e-8)) = true := by decide +kernel
